@@ -72,22 +72,26 @@ def ob_greedy_len(k, mode):
     return f
 
 
-def ob_trim_len(k, j, ps):
+def ob_trim_len(kmax, jmax, psmax):
+    """lengths after the trim helpers for every (current size k, candidates j, population_size ps): the three sizes are
+    solver variables (enumerated by realisation); costs are concrete - a length does not depend on them"""
     def f():
         with env():
-            mk = lambda tag, n: [agent((tag, i), sym.real(f"{tag}{i}")) for i in range(n)]          # noqa: E731
+            k, j, ps = sym.integer("k", 0, kmax), sym.integer("j", 0, jmax), sym.integer("ps", 1, psmax)
+            mk = lambda tag, n: [agent((tag, i), float((i * 7 + len(tag)) % 5)) for i in range(n)]          # noqa: E731
             o = Scripted(config(population_size=ps))
             o._population = mk("o", k)
             o._extend_and_trim_population(mk("n", j))
             exp = k if j == 0 else min(ps, k + j)
             if len(o._population) != exp:
-                return Failure("_extend_and_trim_population:length", got=len(o._population), expected=exp)
+                return Failure("_extend_and_trim_population:length", got=len(o._population), expected=exp, k=k, j=j, ps=ps)
             o._replace_and_trim_population(mk("r", j))
             if len(o._population) != min(ps, j):
-                return Failure("_replace_and_trim_population:length", got=len(o._population), expected=min(ps, j))
+                return Failure("_replace_and_trim_population:length", got=len(o._population), expected=min(ps, j),
+                               j=j, ps=ps)
             got = H.sort_and_trim(mk("s", k), ps)
             if len(got) != min(ps, k):
-                return Failure("sort_and_trim:length", got=len(got), expected=min(ps, k))
+                return Failure("sort_and_trim:length", got=len(got), expected=min(ps, k), k=k, ps=ps)
             return OK
     return f
 
@@ -168,10 +172,7 @@ def obligations(tier):
                 obs.append(Ob(f"greedy_len[k={n},{mode}]", ob_greedy_len(n, mode), 900))
     for mode in ("thread", "process"):
         obs.append(Ob(f"generate_workers[{mode}]", ob_generate_workers(mode, 12 if th else 8, 6 if th else 5), 900))
-    for k in range(0, N):
-        for j in range(0, N):
-            for ps in (1, 2, 4):
-                obs.append(Ob(f"trim_len[k={k},j={j},ps={ps}]", ob_trim_len(k, j, ps), 300))
+    obs.append(Ob("trim_len", ob_trim_len(5 if th else 4, 5 if th else 4, 6 if th else 5), 900))
     for P in range(1, 9):
         obs.append(Ob(f"groups[P={P}]", ob_groups(P), 120))
     for rule in ("greedy", "extend_trim", "replace_trim"):
